@@ -243,6 +243,9 @@ def _bcd_backend_inner(chk):
         ("competition", [(0, 0), (R(3, 5), 0), (4, 0)], [(R(1, 4), 0), (R(41, 10), 0), (R(39, 10), R(1, 5))], R(1)),
         # u1's nearest partner s0 prefers u0; s1's nearest partner u1 prefers s0: only (u0, s0) is mutual (greedy matching would add (u1, s1))
         ("chain", [(0, 0), (R(1, 2), 0)], [(R(1, 5), 0), (R(9, 10), 0)], R(1)),
+        # s1's nearest partner u0 prefers s0; u1 is farther from s1 but has s1 as its best: (u1, s1) is not mutual (bookkeeping that
+        # skips a candidate for j because it does not improve i's best would report it)
+        ("preference", [(0, 0), (R(4, 5), 0)], [(R(1, 10), 0), (R(3, 10), 0)], R(1)),
         ("nothing in radius", [(0, 0), (5, 0)], [(2, 2), (8, 8)], R(1)),
         ("single", [(0, 0), (3, 3)], [(R(1, 10), R(1, 10)), (9, 9)], R(1, 2)),
     ]
